@@ -35,23 +35,34 @@ Corollary C03_schedule_independent : forall body dis user gens inputs pis pis' r
 Proof. exact par_schedule_independent. Qed.
 Print Assumptions C03_schedule_independent.
 
-(* converse (functions with at least one output name): a parallel run that succeeds for SOME schedule implies that
-   the sequential run succeeds, with the same results -- so success itself does not depend on the schedule *)
+(* converse: a parallel run that succeeds for SOME schedule implies that the sequential run succeeds, with the same
+   results -- so success itself does not depend on the schedule.  The only side condition is C01's request_ok
+   (it gives: a function with a MapSpec has at least one output name, as its MapSpec has); the `_mapped_named` forms
+   state that condition directly. *)
 Theorem C03_par_ok_seq_ok : forall body dis user gens inputs pis ps,
-  layering_ok gens = true -> (forall f, In f (concat gens) -> fouts f <> []) ->
+  layering_ok gens = true -> MapDenote.request_ok (concat gens) inputs = true ->
+  par_run body dis gens inputs user pis = Ok ps ->
+  exists rs, map_run body (concat gens) inputs user = Ok rs
+             /\ p_env ps = r_env rs /\ p_shapes ps = r_shapes rs /\ p_out ps = r_out rs
+             /\ length (p_log ps) = r_calls rs.
+Proof. exact par_ok_seq_ok_req. Qed.
+Print Assumptions C03_par_ok_seq_ok.
+
+Corollary C03_par_ok_any_schedule : forall body dis user gens inputs pis pis' ps,
+  layering_ok gens = true -> MapDenote.request_ok (concat gens) inputs = true ->
+  par_run body dis gens inputs user pis = Ok ps ->
+  exists ps', par_run body dis gens inputs user pis' = Ok ps' /\ p_out ps' = p_out ps /\ p_env ps' = p_env ps.
+Proof. exact par_ok_any_schedule_req. Qed.
+Print Assumptions C03_par_ok_any_schedule.
+
+Theorem C03_par_ok_seq_ok_mapped_named : forall body dis user gens inputs pis ps,
+  layering_ok gens = true -> (forall f, In f (concat gens) -> is_mapped f = true -> fouts f <> []) ->
   par_run body dis gens inputs user pis = Ok ps ->
   exists rs, map_run body (concat gens) inputs user = Ok rs
              /\ p_env ps = r_env rs /\ p_shapes ps = r_shapes rs /\ p_out ps = r_out rs
              /\ length (p_log ps) = r_calls rs.
 Proof. exact par_ok_seq_ok. Qed.
-Print Assumptions C03_par_ok_seq_ok.
-
-Corollary C03_par_ok_any_schedule : forall body dis user gens inputs pis pis' ps,
-  layering_ok gens = true -> (forall f, In f (concat gens) -> fouts f <> []) ->
-  par_run body dis gens inputs user pis = Ok ps ->
-  exists ps', par_run body dis gens inputs user pis' = Ok ps' /\ p_out ps' = p_out ps /\ p_env ps' = p_env ps.
-Proof. exact par_ok_any_schedule. Qed.
-Print Assumptions C03_par_ok_any_schedule.
+Print Assumptions C03_par_ok_seq_ok_mapped_named.
 
 (* the storage content of one mapped function does not depend on the order of the dumps:
    (statement of the key lemma: see Proofs/ParGenFacts.stored_any_schedule) *)
@@ -102,7 +113,7 @@ Definition ex_dis (o : str) : bool := str_eqb o (s "y") || str_eqb o (s "w").
 
 Example C03_ex_layering : layering_ok ex_gens = true.
 Proof. vm_compute. reflexivity. Qed.
-Example C03_ex_outputs_named : forallb (fun f => match fouts f with [] => false | _ => true end) (concat ex_gens) = true.
+Example C03_ex_request_ok : MapDenote.request_ok (concat ex_gens) ex_inputs = true.
 Proof. vm_compute. reflexivity. Qed.
 Example C03_ex_sequential_ok : is_ok (map_run sym_body (concat ex_gens) ex_inputs []) = true.
 Proof. vm_compute. reflexivity. Qed.
@@ -112,3 +123,116 @@ Example C03_ex_parallel_ok :
   | Err _ => (0, 0, [])
   end = (10, 9, [Some 2; Some 0; Some 1; Some 0; Some 2; Some 1]).
 Proof. vm_compute. reflexivity. Qed.
+
+(* ====================================================================================================
+   Runs on an EXISTING store: resume with cleanup=False and / or fixed_indices (Model/ParResume.v on top of C06's
+   Model/MapResume.v).  The tasks of a generation are the selected MISSING indices of its mapped functions (and one
+   task per function without mapped inputs); `seq_run_sel` is MapResume's sequential run over the given
+   generations (map_run_sel = the instance gens = generations p, by reflexivity). *)
+From Verif Require Import Base.PyRange Model.MapResume Model.ParResume Proofs.MapResumeFacts Proofs.ParResumeFacts.
+
+(* for EVERY list of schedules and every dump_in_subprocess assignment: the store left behind, the returned
+   outputs, and -- as a multiset -- the whole trace (calls and dumps) are those of the sequential run *)
+Theorem C03_resume_par_equiv_seq : forall body dis p gens inputs user fx rs pis ps,
+  NoDup (flat_map fouts (concat gens)) -> layered gens = true ->
+  seq_run_sel body p gens inputs user fx rs = ROk ps ->
+  exists ps', par_run_sel body dis p gens inputs user fx rs pis = Ok ps'
+              /\ MapResume.p_store ps' = MapResume.p_store ps /\ MapResume.p_out ps' = MapResume.p_out ps
+              /\ Permutation (MapResume.p_tr ps') (MapResume.p_tr ps).
+Proof. exact par_run_sel_equiv. Qed.
+Print Assumptions C03_resume_par_equiv_seq.
+
+(* calls exactly once on an existing store: under any schedule the calls are, as a multiset, exactly the selected
+   elements that miss some output (one call of a function without mapped inputs unless its output is stored);
+   nothing that is stored is called again.  (C06_part_computes_exactly gives the list for the sequential run.) *)
+Theorem C03_resume_calls_exactly_once : forall body dis (c : ctx) fx rs user pis ps,
+  sized c rs ->
+  (forall g f o, In g (x_p c) -> In f (x_p c) -> In o (fouts g) -> In o (fouts f) -> g = f) ->
+  all_shapes user (x_inputs c) (x_p c) = Ok (x_shapes c) ->
+  NoDup (flat_map fouts (concat (generations (x_p c)))) -> layered (generations (x_p c)) = true ->
+  map_run_sel body (x_p c) (x_inputs c) user fx rs = ROk ps ->
+  exists ps', par_run_sel body dis (x_p c) (generations (x_p c)) (x_inputs c) user fx rs pis = Ok ps'
+              /\ MapResume.p_store ps' = MapResume.p_store ps /\ MapResume.p_out ps' = MapResume.p_out ps
+              /\ Permutation (calls_of (MapResume.p_tr ps')) (flat_map (calls_for c fx rs) (concat (generations (x_p c)))).
+Proof.
+  intros body dis c fx rs user pis ps H1 H2 H3 H4 H5 H6.
+  destruct (par_run_sel_equiv body dis _ _ _ _ _ _ pis ps H4 H5 H6) as (ps' & Hp & Hs & Ho & Ht).
+  exists ps'. repeat split; try assumption.
+  destruct (part_run_exact body c fx rs H1 H2 user ps H3 H4 H6) as [A _ _ _]. cbn [app calls_of flat_map] in A.
+  rewrite <- A. unfold calls_of. now apply ParGenFacts.Permutation_flat_map_l.
+Qed.
+Print Assumptions C03_resume_calls_exactly_once.
+
+(* every element that is computed is dumped exactly as often as in the sequential run (once per output) *)
+Definition dumps_of (tr : list action) : list (str * nat) :=
+  flat_map (fun a => match a with ADump o pos _ => [(o, pos)] | _ => [] end) tr.
+Theorem C03_resume_single_dump : forall body dis p gens inputs user fx rs pis ps,
+  NoDup (flat_map fouts (concat gens)) -> layered gens = true ->
+  seq_run_sel body p gens inputs user fx rs = ROk ps ->
+  exists ps', par_run_sel body dis p gens inputs user fx rs pis = Ok ps'
+              /\ Permutation (dumps_of (MapResume.p_tr ps')) (dumps_of (MapResume.p_tr ps)).
+Proof.
+  intros body dis p gens inputs user fx rs pis ps H1 H2 H3.
+  destruct (par_run_sel_equiv body dis _ _ _ _ _ _ pis ps H1 H2 H3) as (ps' & Hp & _ & _ & Ht).
+  exists ps'. split; [exact Hp|]. unfold dumps_of. now apply ParGenFacts.Permutation_flat_map_l.
+Qed.
+Print Assumptions C03_resume_single_dump.
+
+(* a non-trivial instance: the folder holds what map(fixed_indices={"i": 0}) left; the resuming run is executed
+   under a non-trivial schedule *)
+Definition ex_gens2 : list (list mfunc) := firstn 2 ex_gens.     (* without the reducing f3: axis i may be fixed *)
+Definition ex_rs : rstore :=
+  match seq_run_sel sym_body (concat ex_gens2) ex_gens2 ex_inputs [] (Some [(s "i", FInt 0%Z)]) empty_store with
+  | ROk ps => MapResume.p_store ps
+  | RErr _ _ => empty_store
+  end.
+Example C03_ex_resume :
+  match seq_run_sel sym_body (concat ex_gens2) ex_gens2 ex_inputs [] None ex_rs,
+        par_run_sel sym_body ex_dis (concat ex_gens2) ex_gens2 ex_inputs [] None ex_rs [[3; 0; 2; 1]; [1; 0]] with
+  | ROk ps, Ok ps' => (length (calls_of (MapResume.p_tr ps)), calls_of (MapResume.p_tr ps'))
+  | _, _ => (0, [])
+  end = (6, [(s "f1", Some 2); (s "f0", Some 1); (s "f1", Some 1); (s "f0", Some 2); (s "f2", Some 2); (s "f2", Some 1)]).
+Proof. vm_compute. reflexivity. Qed.
+Example C03_ex_resume_layered : layered ex_gens2 = true /\ NoDup (flat_map fouts (concat ex_gens2)).
+Proof. split; [vm_compute; reflexivity|]. apply MapSpecFacts.nodup_str_NoDup. vm_compute. reflexivity. Qed.
+
+(* ====================================================================================================
+   Which error surfaces.  If the sequential run fails in generation g (after the generations G1 succeeded), the
+   functions of g can all be submitted, and the library's own per-element steps of g (output key, placement into the
+   result array, dump) cannot fail for an element whose task succeeded (`prep_steps_ok`: true of every well-shaped
+   request, see the example), then the error is that of the FIRST FAILING TASK in submission order -- argument
+   selection, the user function raising, or a wrong number of outputs -- and the parallel run fails with the SAME
+   error class for EVERY schedule and every storage assignment. *)
+From Verif Require Import Proofs.ParGenErr.
+
+Theorem C03_error_class : forall body dis user G1 g G2 inputs pis rs1 preps shapes' e,
+  layering_ok (G1 ++ g :: G2) = true ->
+  map_run body (concat G1) inputs user = Ok rs1 ->
+  submit_gen user (r_env rs1) (r_shapes rs1) g = Ok (preps, shapes') -> Forall (prep_steps_ok body) preps ->
+  fold_left (fun acc f => do st <- acc; run_func body user st f) g (Ok rs1) = Err e ->
+  map_run body (concat (G1 ++ g :: G2)) inputs user = Err e
+  /\ par_run body dis (G1 ++ g :: G2) inputs user pis = Err e.
+Proof. exact par_run_err. Qed.
+Print Assumptions C03_error_class.
+
+(* instance: f1 raises ZeroDivisionError for every element; for every schedule the run fails with that class *)
+Definition ex_fail (f : mfunc) (kw : env) : result (list val) :=
+  if str_eqb (fname f) (s "f1") then Err ZeroDivisionError else sym_body f kw.
+Example C03_ex_error_class :
+  exists rs1 preps shapes',
+    map_run ex_fail (concat []) ex_inputs [] = Ok rs1
+    /\ submit_gen [] (r_env rs1) (r_shapes rs1) (hd [] ex_gens) = Ok (preps, shapes')
+    /\ Forall (prep_steps_ok ex_fail) preps
+    /\ fold_left (fun acc f => do st <- acc; run_func ex_fail [] st f) (hd [] ex_gens) (Ok rs1) = Err ZeroDivisionError
+    /\ par_run ex_fail ex_dis ex_gens ex_inputs [] ex_pis = Err ZeroDivisionError.
+Proof.
+  eexists. eexists. eexists. split; [reflexivity|]. split; [vm_compute; reflexivity|].
+  split; [|split; vm_compute; reflexivity].
+  constructor; [|constructor; [|constructor]]; cbn [prep_steps_ok]; intros i sel outs Hi Hs Hb Hl.
+  - assert (i = 0 \/ i = 1 \/ i = 2) as [-> | [-> | ->]] by (vm_compute in Hi; lia);
+      vm_compute in Hs; injection Hs as <-; vm_compute in Hb; injection Hb as <-;
+      (split; [vm_compute; reflexivity|]); intros v [<-|[]];
+      (split; [eexists; vm_compute; reflexivity|intros arr; eexists; reflexivity]).
+  - exfalso. assert (i = 0 \/ i = 1 \/ i = 2) as [-> | [-> | ->]] by (vm_compute in Hi; lia);
+      vm_compute in Hs; injection Hs as <-; vm_compute in Hb; discriminate.
+Qed.
